@@ -12,6 +12,7 @@ import (
 
 	sio "github.com/karagenc/socket.io-go"
 
+	"sioverif/internal/proxy"
 	"sioverif/internal/rig"
 )
 
@@ -30,6 +31,12 @@ type Config struct {
 	OnClientSocket func(idx int, cs sio.ClientSocket)
 	// OnWorld is called as soon as the client slots exist (before any connection is made).
 	OnWorld func(w *World)
+	// SlowUpgrade > 0 puts a TCP proxy in front of the server that delays every chunk of the
+	// WebSocket upgrade connection by this much, so that traffic keeps flowing through the swap.
+	SlowUpgrade time.Duration
+	// SlowPolling > 0 delays every chunk of the non-WebSocket (long-polling) connections instead, so that
+	// the poll response in flight at the swap arrives after the new transport is already carrying traffic.
+	SlowPolling time.Duration
 	// WaitUpgrade waits until every client reports the transport upgrade done (only when transports = polling+websocket).
 	WaitUpgrade bool
 	NoReconnect bool
@@ -62,6 +69,7 @@ func (c *Client) Upgraded() bool { return c.upgraded.Load() }
 
 type World struct {
 	Cfg     Config
+	Proxy   *proxy.Proxy
 	Srv     *rig.Server
 	Clients []*Client
 
@@ -107,6 +115,29 @@ func New(cfg Config) (*World, error) {
 		return nil, err
 	}
 	w.Srv = srv
+	url := srv.URL
+	if cfg.SlowUpgrade > 0 || cfg.SlowPolling > 0 {
+		px, err := proxy.New(srv.Addr)
+		if err != nil {
+			srv.Close()
+			return nil, err
+		}
+		px.OnConn = func(c *proxy.Conn) {
+			if c.IsWS() {
+				if cfg.SlowPolling > 0 {
+					// late-poll mode: only the websocket handshake is slow (the Socket.IO connection is
+					// established meanwhile), the probe and the swap are fast, poll responses are late.
+					c.SetDelayFirst(20*time.Millisecond, 2)
+				} else {
+					c.SetDelay(cfg.SlowUpgrade)
+				}
+			} else if cfg.SlowPolling > 0 {
+				c.SetDirDelay(proxy.S2C, cfg.SlowPolling)
+			}
+		}
+		w.Proxy = px
+		url = px.URL("/socket.io/")
+	}
 	for i := 0; i < cfg.Clients; i++ {
 		w.Clients = append(w.Clients, &Client{Idx: i})
 	}
@@ -157,7 +188,7 @@ func New(cfg Config) (*World, error) {
 		if cfg.ManagerCfg != nil {
 			cfg.ManagerCfg(i, mcfg)
 		}
-		c.M = sio.NewManager(srv.URL, mcfg)
+		c.M = sio.NewManager(url, mcfg)
 		who := fmt.Sprintf("client[%d]", i)
 		c.M.OnError(func(err error) { w.fault(who+".manager", "error: "+err.Error()) })
 		c.M.OnClose(func(reason sio.Reason, err error) { w.fault(who+".manager", fmt.Sprintf("close: %s %v", reason, err)) })
@@ -214,4 +245,7 @@ func (w *World) Close() {
 		}
 	}
 	w.Srv.Close()
+	if w.Proxy != nil {
+		w.Proxy.Close()
+	}
 }
